@@ -597,6 +597,7 @@ static void build_alphabet(bool reduced)
 /* (5) a small "semantic" sub-alphabet for three-PDU responses: what each PDU means in the start state
  * (socket holds universe records 0,1,3 and key 0 under session SESSION) */
 static int SEM0, NSEM;
+static int SEM_CR_OK, SEM_CR_FOREIGN, SEM_EOD_OK, SEM_EOD_FOREIGN, SEM_WD_PRESENT, SEM_NOTIFY; /* alphabet indices of the symbols the judge names */
 
 static void build_semantic(void)
 {
@@ -604,13 +605,17 @@ static void build_semantic(void)
 	uint32_t pre6[4] = {0x20010db8, 0, 0, 0};
 
 	SEM0 = NALPHA;
+	SEM_CR_OK = NALPHA;
 	h = alpha_new("cache-response(session ok)");
 	pdu_cache_response(&h->b, SOCKVER, SESSION);
+	SEM_CR_FOREIGN = NALPHA;
 	h = alpha_new("cache-response(foreign session)");
 	pdu_cache_response(&h->b, SOCKVER, SESSION ^ 0x0001); /* foreign by one bit of the low octet */
 	h->cls = CL_SESSION;
+	SEM_EOD_OK = NALPHA;
 	h = alpha_new("end-of-data(session ok)");
 	pdu_eod(&h->b, SOCKVER, SESSION, 9, 3600, 600, 7200);
+	SEM_EOD_FOREIGN = NALPHA;
 	h = alpha_new("end-of-data(foreign session)");
 	pdu_eod(&h->b, SOCKVER, SESSION ^ 0x0100, 9, 3600, 600, 7200); /* foreign by one bit of the high octet */
 	h->cls = CL_SESSION;
@@ -619,6 +624,7 @@ static void build_semantic(void)
 	h = alpha_new("announce ipv4 present record (duplicate)");
 	pdu_ipv4(&h->b, SOCKVER, 1, 8, 16, 0x0a000000, 100);
 	h->cls = CL_DUP;
+	SEM_WD_PRESENT = NALPHA;
 	h = alpha_new("withdraw ipv4 present record");
 	pdu_ipv4(&h->b, SOCKVER, 0, 16, 24, 0x0a010000, 200);
 	h = alpha_new("withdraw ipv4 absent record (unknown)");
@@ -658,6 +664,7 @@ static void build_semantic(void)
 	h = alpha_new("ipv4 prefix length 33");
 	pdu_ipv4(&h->b, SOCKVER, 1, 33, 33, 0xc0a80000, 300);
 	h->cls = CL_BADFLAGS; /* same class of report: corrupt data, echoing the PDU */
+	SEM_NOTIFY = NALPHA;
 	h = alpha_new("serial-notify");
 	pdu_serial_notify(&h->b, SOCKVER, SESSION, 9);
 	h = alpha_new("cache-reset");
@@ -992,22 +999,23 @@ static void check_sent(const struct outcome *o, bool baseline)
 		};
 		int cls = FIRST_CLS;
 
-		/* bad flags are detected when the payload is applied, i.e. only after End of Data: out of reach of short streams */
-		if (cls == CL_BADFLAGS)
+		/* bad flags / lengths of a prefix or key are detected when the payload is applied, i.e. only after a
+		 * correct End of Data: out of reach of the one- and two-PDU streams */
+		if (cls == CL_BADFLAGS && CUR_CASE->p[0] < SEM0)
 			return;
 		/* in three-PDU responses only judge shapes whose first violation is unambiguous: the classified PDU
-		 * is what the client trips over iff the response is [Cache Response ok, …payload…, End of Data] */
+		 * is what the client trips over iff the response is [Cache Response ok, ...payload..., End of Data] */
 		if (CUR_CASE->p[0] >= SEM0) {
 			const struct stream_case *sc = CUR_CASE;
-			bool cr_first = sc->p[0] == SEM0 || sc->p[0] == SEM0 + 1;
+			bool cr_first = sc->p[0] == SEM_CR_OK || sc->p[0] == SEM_CR_FOREIGN;
 			bool eod_last = false;
 			int last = sc->p[2] >= 0 ? sc->p[2] : sc->p[1];
 
-			if (last >= 0 && (last == SEM0 + 2 || last == SEM0 + 3))
+			if (last >= 0 && (last == SEM_EOD_OK || last == SEM_EOD_FOREIGN))
 				eod_last = true;
 			if (!cr_first)
 				return; /* first PDU is not a Cache Response: "unexpected PDU", position dependent */
-			if (sc->p[0] == SEM0 + 1) {
+			if (sc->p[0] == SEM_CR_FOREIGN) {
 				cls = CL_SESSION;
 				/* the offending PDU is the Cache Response itself */
 			} else {
@@ -1017,8 +1025,8 @@ static void check_sent(const struct outcome *o, bool baseline)
 
 				for (int i = 1; i < 3 && sc->p[i] >= 0; i++) {
 					int x = sc->p[i];
-					bool harmless = x == SEM0 + 6 || x == SEM0 + 13;
-					bool eod_ok_last = x == SEM0 + 2 && (i == 2 || sc->p[i + 1] < 0);
+					bool harmless = x == SEM_WD_PRESENT || x == SEM_NOTIFY;
+					bool eod_ok_last = x == SEM_EOD_OK && (i == 2 || sc->p[i + 1] < 0);
 
 					if (harmless || eod_ok_last)
 						continue;
@@ -1029,14 +1037,9 @@ static void check_sent(const struct outcome *o, bool baseline)
 				if (vi < 0)
 					return;
 				cls = ALPHA[sc->p[vi]].cls;
-				if (cls == CL_UNEXPECTED || cls == CL_SESSION) {
-					/* detected on receipt: nothing odd may precede it (checked above) */
-					for (int i = vi + 1; i < 3; i++)
-						if (sc->p[i] >= 0 && !(sc->p[i] == SEM0 + 2))
-							; /* whatever follows is never read */
-				} else {
+				if (cls != CL_UNEXPECTED && cls != CL_SESSION) {
 					/* payload violations surface only when a correct End of Data arrives after them */
-					if (!(eod_last && last == SEM0 + 2 && sc->p[vi] != last))
+					if (!(eod_last && last == SEM_EOD_OK && sc->p[vi] != last))
 						return;
 				}
 			}
